@@ -131,6 +131,6 @@ OBLIGATIONS = [
                     "(UTF-8 for binary targets; XML: parses identically), same document from every source kind, prov.read returns that document",
                bounds="4 x 4 x 5 x 2 x 9 = 1440 configurations, exhaustively (3 variants are > 16 KiB documents of multi-byte text; path destinations also over a pre-existing longer file)", assumptions=["documents in the intersection of the JSON/XML/RDF-expressible spaces", "RDF compared against unified()"],
                functions=["prov.model.ProvDocument.serialize/deserialize", "prov.read", "prov.serializers.*.serialize/deserialize (stream handling)"],
-               shims=["no symbolic content: this is the weakest use of the technique (stated in DESIGN.md)"], best_verdict="PATH_COMPLETE",
+               shims=["no symbolic content: this is the weakest use of the technique (stated in DESIGN.md)"], best_verdict="PATH_COMPLETE", traced=False,
                budget_s=(200, 600), per_path_s=(30, 60)),
 ]
